@@ -442,6 +442,91 @@ def gen_progressions(repo):
     out.append("end Mingus.Gen.Progressions")
     return "\n".join(out) + "\n"
 
+# ---------------------------------------------------------------- value
+def lrat(x):
+    """exact rational of a Python number (every finite double is a dyadic rational)"""
+    import fractions
+    f = fractions.Fraction(x)
+    return "((%d : Rat) / %d)" % (f.numerator, f.denominator) if f.denominator != 1 else "(%d : Rat)" % f.numerator
+
+def const_eval(node, env=None):
+    """evaluate an arithmetic expression over numeric constants (and `env` names) with Python's own float semantics"""
+    env = env or {}
+    if isinstance(node, ast.Constant) and isinstance(node.value, (int, float)):
+        return node.value
+    if isinstance(node, ast.Name) and node.id in env:
+        return env[node.id]
+    if isinstance(node, ast.BinOp):
+        a, b = const_eval(node.left, env), const_eval(node.right, env)
+        if isinstance(node.op, ast.Add): return a + b
+        if isinstance(node.op, ast.Sub): return a - b
+        if isinstance(node.op, ast.Mult): return a * b
+        if isinstance(node.op, ast.Div): return a / b
+        if isinstance(node.op, ast.Pow): return a ** b
+    if isinstance(node, ast.Call) and getattr(node.func, "id", None) == "float" and len(node.args) == 1:
+        return float(const_eval(node.args[0], env))
+    raise Shape("not a constant arithmetic expression: %s" % ast.unparse(node))
+
+def gen_value(repo):
+    t = parse(repo, "mingus/core/value.py")
+    fns = {n.name: n for n in t.body if isinstance(n, ast.FunctionDef)}
+    base = lit(module_assign(t, "base_values"))
+    det = fns["determine"]
+    chain = [n for n in det.body if isinstance(n, ast.If) and "scaled" in ast.unparse(n.test)]
+    if len(chain) != 1:
+        raise Shape("determine: threshold chain not found")
+    rows = []
+    node = chain[0]
+    while True:
+        tst = node.test
+        if not (isinstance(tst, ast.Compare) and getattr(tst.left, "id", None) == "scaled" and isinstance(tst.ops[0], ast.GtE)):
+            raise Shape("determine: test is not `scaled >= c`")
+        thr = const_eval(tst.comparators[0])
+        if len(node.body) != 1 or not isinstance(node.body[0], ast.Return) or not isinstance(node.body[0].value, ast.Tuple):
+            raise Shape("determine: branch is not a tuple return")
+        e = node.body[0].value.elts
+        rows.append((thr, ast.unparse(e[0]), lit(e[1]), lit(e[2]), lit(e[3])))
+        if len(node.orelse) == 1 and isinstance(node.orelse[0], ast.If):
+            node = node.orelse[0]
+        elif not node.orelse:
+            break
+        else:
+            raise Shape("determine: chain has an else")
+    tail = [ast.unparse(x) for x in det.body[det.body.index(chain[0]) + 1:]]
+    want_tail = ["d = 3", "for x in range(2, 5):\n    d += 2 ** x\n    if scaled == 2.0 ** x / d:\n        return (v, x, 1, 1)",
+                 "return (base_values[i + 1], 0, 1, 1)"]
+    if tail != want_tail:
+        raise Shape("determine: the multi-dot loop / final return changed shape")
+    fps, d = [], 3
+    for x in range(2, 5):
+        d += 2 ** x
+        fps.append((x, 2.0 ** x / d))
+    head = [ast.unparse(x) for x in body_wo_doc(det)[:3]]
+    want_head = ["i = -2", "for v in base_values:\n    if value == v:\n        return (value, 0, 1, 1)\n    if value < v:\n        break\n    i += 1",
+                 "scaled = float(value) / 2 ** i"]
+    if head != want_head:
+        raise Shape("determine: the base-value scan changed shape")
+    dots = body_wo_doc(fns["dots"])
+    if len(dots) != 1 or not isinstance(dots[0], ast.Return):
+        raise Shape("dots body")
+    dot_consts = [const_eval(dots[0].value, {"value": 1.0, "nr": n}) for n in range(5)]
+    tup = body_wo_doc(fns["tuplet"])
+    if [ast.unparse(x) for x in tup] != ["return rat1 * value / float(rat2)"]:
+        raise Shape("tuplet body")
+    helpers = []
+    for name in ("triplet", "quintuplet"):
+        b = body_wo_doc(fns[name])
+        c = b[0].value
+        helpers.append((name, lit(c.args[1]), lit(c.args[2])))
+    out = ["namespace Mingus.Gen.Value"]
+    out.append("def baseValues : List Rat := " + llist(lrat(x) for x in base))
+    out.append("def chain : List (Rat × List Char × Nat × Nat × Nat) := " + llist("(%s, %s, %d, %d, %d)" % (lrat(a), lstr(b), c, d_, e) for a, b, c, d_, e in rows))
+    out.append("def fingerprints : List (Nat × Rat) := " + llist("(%d, %s)" % (x, lrat(v)) for x, v in fps))
+    out.append("def dotConst : List Rat := " + llist(lrat(x) for x in dot_consts))
+    out.append("def tupletHelpers : List (List Char × Nat × Nat) := " + llist("(%s, %d, %d)" % (lstr(a), b, c) for a, b, c in helpers))
+    out.append("end Mingus.Gen.Value")
+    return "\n".join(out) + "\n"
+
 GENERATORS = {
     "Notes": gen_notes,
     "Keys": gen_keys,
@@ -449,6 +534,7 @@ GENERATORS = {
     "Scales": gen_scales,
     "Chords": gen_chords,
     "Progressions": gen_progressions,
+    "Value": gen_value,
 }
 
 def main():
